@@ -12,7 +12,7 @@ from .hist import Index
 
 LITERALS = ["10.0.0.5", "192.168.1.77", "fd00::5", "fe80::1%3", "::1", "2001:db8::2%12"]
 LOCALS = ["mydev", "mydev.local", "mydev.local.", "other", "other.local"]
-FQDNS = ["dev.example.com", "esp.lan", "node.example.org."]
+FQDNS = ["dev.example.com", "esp.lan", "node.example.org.", "kitchen.intralocal", "node.office-local", "dev.example.nonlocal."]
 V4 = ["10.1.0.1", "10.1.0.2", "10.1.0.3"]
 V6 = ["fd00::11", "fd00::12"]
 
